@@ -76,6 +76,33 @@ CHECKS = {
             "documented insertion rule and with circuit.with_noise.",
             "<=4 wires; Kraus branches lighter than 1e-7 never forced; thermal / device-derived noise models not covered yet.",
             "DESIGN.md 5/C09"),
+    "C10": ("exploration", "runtime monitor on ParamResolver / resolve_parameters / sweeps / flatten + two independent expression evaluators and pure-Python sweep models",
+            "Generated real-valued expression trees are resolved through ParamResolver.value_of (in-situ wrapper on every call), "
+            "resolve_parameters on gates/ops/moments/circuits/CircuitOperations/tags, and compared with a plain recursive float "
+            "evaluator and sympy xreplace+evalf; resolved gates are compared with catalogue matrices at the substituted numbers; "
+            "identity short-cuts are checked against the model's free-symbol set; every sweep class (nested to depth 3) is "
+            "compared with a stdlib model for len/iter/index/slice/keys/==/+/*; simulate_sweep[i] vs simulate(s[i]) with the "
+            "first parameterized op at random depth; flatten/flatten_with_sweep gate by gate for every assignment.",
+            "Expressions kept real and finite at every sub-expression (np.float_power vs complex algebra differ elsewhere); "
+            "JSON/proto commutation left to C11/C16.", "DESIGN.md 5/C10"),
+    "C14": ("exploration", "runtime monitor on the Pauli algebra API + numpy Kronecker-product oracle; exhaustive small cases",
+            "Exhaustive: all ordered pairs of Pauli strings on <=2 wires x coefficients {+-1,+-i} for every binary law, all "
+            "one-wire triples, all 24 single-qubit Cliffords (and, in thorough, all 11520 two-qubit Cliffords) as conjugators; "
+            "random: strings on <=5 qubits with complex coefficients, Clifford circuits <=12 gates with the conjugator matrix "
+            "built from catalogue matrices. Products, sums, powers, commutes, conjugated_by/after/before, mutable in-place "
+            "forms, dense strings, PauliSum arithmetic, expectations from state vectors / density matrices / the simulators "
+            "with random qubit maps, phasors and sum-exponentials (as products of rotation factors) are compared with matrices.",
+            "Direction of conjugation pinned by the docstring examples; observable-measurement utilities (cirq.work) not covered.",
+            "DESIGN.md 5/C14"),
+    "C19": ("translation_validation", "runtime monitor on every QASM export entry point + independent OpenQASM reader executing the emitted text",
+            "The text Cirq emits (to_qasm, cirq.qasm, QasmOutput str/save, save_qasm; versions 2.0 and 3.0, all qubit orders, "
+            "precisions 3-15) is parsed by an independent reader whose gate semantics are qelib1.inc transcribed literally as "
+            "macros over U and CX (stdgates table for 3.0) and executed by its own branching simulator; unitary programs are "
+            "compared up to global phase with the catalogue product of the abstract program, measured/controlled programs by the "
+            "exact joint distribution over creg contents (bit i of the register of key k <-> digit i), classical conditions "
+            "evaluated with the creg integer little-endian as the OpenQASM specification says; parse errors are violations.",
+            "qelib1.inc / stdgates.inc transcribed from the OpenQASM specifications from memory (self-test against closed forms); "
+            "<=5 qubits.", "DESIGN.md 5/C19"),
 }
 
 PENDING_REASON = "check not built yet in this round; design in DESIGN.md section 5 (runtime monitor + reference oracle)"
